@@ -77,6 +77,22 @@ theorem second_pack_refused {s : State} (h : Reachable s) (hr : s.phase.running 
     step s (.packStart T) = none ∧ step s .packRefused = some s :=
   Proofs.PackProto.second_refused (Proofs.PackProto.reachable_inv h) hr T
 
+/-- … and stays refused: however many further attempts are made while the pack runs — each one
+    refused — the state (in particular `_pack_is_in_progress`) is unchanged, so the NEXT attempt is
+    refused as well; a refusal never clears the flag, and the flag is set in every running phase. -/
+theorem pack_refusal_repeatable {s : State} (h : Reachable s) (hr : s.phase.running = true)
+    (n : Nat) (T : Tid) :
+    s.packFlag = true ∧ run s (List.replicate n .packRefused) = some s ∧
+    step s (.packStart T) = none ∧
+    (∀ s', step s .packRefused = some s' → s'.packFlag = true ∧ s' = s) := by
+  have inv := Proofs.PackProto.reachable_inv h
+  have hf := inv.flag hr
+  refine ⟨hf, Proofs.PackProto.refused_repeat hf n, (Proofs.PackProto.second_refused inv hr T).1, ?_⟩
+  intro s' hs'
+  rw [(Proofs.PackProto.second_refused inv hr T).2] at hs'
+  cases hs'
+  exact ⟨hf, rfl⟩
+
 /-- A pack that cannot complete — an exception at ANY step from the flag being set up to and
     including the swap — leaves the stored log, the history, the returned commits and the
     in-flight transaction unchanged, the flag cleared, the packer idle and the commit lock not
@@ -156,6 +172,12 @@ example : run (init [1, 2]) [.packStart 1, .scan 1, .bulkCopy [], .acquireCommit
     .releaseForBody, .copyBody, .reacquire, .readHdr, .readerGet, .swapBegin] = none := by decide
 example : run (init [1, 2]) [.packStart 1, .scan 1, .bulkCopy [], .acquireCommit, .readHdr,
     .releaseForBody, .copyBody, .reacquire, .readHdr, .swapBegin, .readerGet] = none := by decide
+/-- three attempts during one running pack are all refused, a fourth `packStart` is impossible -/
+example : run (init [1, 2, 3]) [.packStart 2, .scan 2, .packRefused, .bulkCopy [2], .packRefused,
+    .acquireCommit, .packRefused, .packStart 3] = none := by decide
+example : (run (init [1, 2, 3]) [.packStart 2, .scan 2, .packRefused, .bulkCopy [2], .packRefused,
+    .acquireCommit, .packRefused]).map (fun s => (s.packFlag, s.phase)) =
+    some (true, .holdsCommit) := by decide
 /-- a failing pack in the middle of `copyRest` (holding the lock) frees the lock and the flag -/
 example : (run (init [1, 2, 3]) [.packStart 2, .scan 2, .bulkCopy [2], .acquireCommit, .readHdr,
     .packFail, .begin 4, .vote, .finish, .packStart 3]).map
